@@ -242,7 +242,9 @@ func (ip *Interp) invoke(rv Value, name string, args []Value) (Value, error) {
 					src = snapshot
 				}
 				for _, it := range src {
-					r.Items = append(r.Items, it)
+					// the merged items are stored as copies (C07: a change made through the
+					// argument's name afterwards must not show through the receiver's name)
+					r.Items = append(r.Items, DeepCopy(it))
 				}
 			}
 			return &unspecValue{}, nil
